@@ -173,7 +173,9 @@ namespace ST
 
             if (is_reffed()) {
                 delete[] m_chars;
+                m_chars = m_data;
                 m_size = 0;
+                m_data[0] = 0;
             }
 
             if (copy.is_reffed()) {
